@@ -45,7 +45,8 @@ RULE = ("Each run: 1-6 seeded task programs (Task subclasses and "
         "to depth 3 / raise / exit), 0-3 Timers (one-shot, recurring, "
         "cancelled, self-stopping, absolute, late start), priorities below 1, "
         "CPU cost per cycle and harness events at seeded virtual times, "
-        "executed by the real Scheduler/SelectHub (inline hub) on the "
+        "executed by the real Scheduler/SelectHub (inline hub; select or, in "
+        "a fifth of the runs, the epoll backend) on the "
         "simulated clock/select/sockets; every resumption is checked for "
         "order, exactly-once, not-early, value received and bounded "
         "lateness, and at the end every task must have finished or be "
@@ -55,8 +56,14 @@ ASSUMPTIONS = [
   "single OS thread, inline select hub only (the threaded hub is checked "
   "elsewhere)",
   "the simulated select never returns early and never reports a non-ready fd",
-  "every simulated socket is used by one task only; the other end belongs "
-  "to the harness",
+  "every simulated socket is read by one task and written by one task (in "
+  "most runs the same one; with cfg cross, task A sends on the socket task "
+  "B reads); the other end belongs to the harness",
+  "a fifth of the runs use the hub's epoll backend (pox.lib.epoll_select on "
+  "a simulated, level-triggered epoll object): it documents that it ignores "
+  "exceptional-condition lists, so those plans have none; a socket error / "
+  "hang-up is then reported to Recv and Send as an exceptional condition "
+  "(they list the socket there) and ends them, which is accepted",
   "schedule() is only applied to tasks blocked by `yield False`/Sleep(None) "
   "(waking a task that sleeps in the hub is API misuse)",
   "where the property is silent both behaviours are accepted: a timeout "
@@ -88,7 +95,7 @@ EXPECT_PROBES = ["op_y0", "op_fsleep", "op_sleep", "op_sleepabs", "op_block",
                  "again_exc", "again_none", "again_depth3", "timer_fire",
                  "timer_cancelled_before_fire", "timer_selfstop",
                  "timer_recurring_fire", "prio_draw", "task_death_expected",
-                 "sleep_immediate", "sleep_via_hub"]
+                 "sleep_immediate", "sleep_via_hub", "hub_epoll"]
 
 T0 = S.T0
 TICK = S.TICK
@@ -127,12 +134,12 @@ def _timeout(r):
                   (2, 1.0), (1, 2.5)])
 
 
-def _sel_args(r, socks):
+def _sel_args(r, socks, now=()):
   a = {"r": [], "w": [], "x": []}
   for s in socks:
     if r.chance(0.6):
       a["r"].append(s)
-    if r.chance(0.25):
+    if r.chance(0.25) and s not in now:
       a["w"].append(s)
     if r.chance(0.15):
       a["x"].append(s)
@@ -147,13 +154,16 @@ def _sel_args(r, socks):
 
 
 class _Gen(object):
-  def __init__(self, r, ntask, nlock, w):
+  def __init__(self, r, ntask, nlock, w, cross=None):
     self.r = r
     self.ntask = ntask
     self.nlock = nlock
     self.w = w
     self.events = []
     self.serial = 0
+    # cross = (A, B): task A does all its sending on task B's first socket,
+    # which B only ever reads from (one connection, one task per direction)
+    self.cross = cross
 
   def io_event(self, op, a):
     """Harness events that make the wait of this step end (most of the
@@ -192,8 +202,10 @@ class _Gen(object):
     if op == "sleepabs":
       return {"at": (_tick(r) - r.pick([0, 0, 2048])) * TICK,
               "kw": r.chance(0.5)}
+    cross = self.cross
     if op == "select":
-      a = _sel_args(r, socks)
+      a = _sel_args(r, socks,
+                    now=(2 * tno,) if cross and tno == cross[1] else ())
       self.io_event(op, a)
       return a
     if op == "recv":
@@ -202,6 +214,10 @@ class _Gen(object):
       self.io_event(op, a)
       return a
     if op == "send":
+      if cross and tno == cross[0]:
+        socks = [2 * cross[1]]
+      elif cross and tno == cross[1]:
+        socks = [2 * tno + 1]
       a = {"s": r.pick(socks), "n": r.pick([1, 3, 8, 20]),
            "to": r.wpick([(4, None), (1, 0.5), (1, 1.0)]),
            "bs": r.pick([None, None, 4]),
@@ -324,7 +340,13 @@ def gen_plan(seed, tier):
     # scripted raises use an exception outside the Exception hierarchy
     "boom_base": r.chance(0.25),
   }
-  g = _Gen(r, ntask, nlock, w)
+  r2 = Rng(mix(seed, "hub"))
+  epoll = r2.chance(0.2)
+  cross = None
+  if ntask >= 2 and r2.chance(0.5 if epoll else 0.1):
+    cross = r2.sample(list(range(ntask)), 2)
+    cfg["cross"] = cross
+  g = _Gen(r, ntask, nlock, w, cross)
   steps = []
   for tno in range(ntask):
     steps.extend(g.program(tno))
@@ -360,8 +382,7 @@ def gen_plan(seed, tier):
     g.events.append(["h", _tick(r), k, a])
   g.events.sort(key=lambda e: e[1])
   steps.extend(g.events)
-  r2 = Rng(mix(seed, "hub"))
-  if r2.chance(0.2):
+  if epoll:
     # the hub's other backend (--epoll-selecthub): pox.lib.epoll_select on
     # a simulated epoll object.  It documents that it ignores the
     # exceptional-condition lists, so those are left out of such plans.
